@@ -285,6 +285,12 @@ fn run_cmd(cx: &mut Ctx, c: &Value) -> Value {
         "restart" => d.restart_debugee().map(|p| json!({"pid": p.as_raw()})).map_err(|e| e.to_string()),
         "detach" => d.detach().map(|_| Value::Null).map_err(|e| e.to_string()),
         "noop" => Ok(Value::Null),
+        // a process-directed SIGUSR1 sent by the harness while the debuggee sits at a prompt
+        "signal" => {
+            let pid = d.process().pid().as_raw();
+            let r = unsafe { libc::kill(pid, libc::SIGUSR1) };
+            if r == 0 { Ok(Value::Null) } else { Err("kill failed".to_string()) }
+        }
         "watch_addr" => {
             use bugstalker::debugger::register::debug::{BreakCondition, BreakSize};
             let sz = match c["size"].as_u64().unwrap_or(8) {
